@@ -184,3 +184,44 @@ fn unreal2_order(swapped: bool) {
 }
 c08_text!(c08_unreal2_in_order, unreal2_order(false));
 c08_text!(c08_unreal2_swapped, unreal2_order(true));
+
+/// Reassembly at the receive level (no parsing of the payload): for each order
+/// of 3 fragments the reassembled packet is kind 'D' with exactly the bytes of
+/// the whole reply.
+#[cfg(kani)]
+fn valve_receive_order(perm: [usize; 3]) {
+    let addr = any_addr_v4();
+    let score: i32 = kani::any();
+    let mut frags = valve_fragments(false, score, 3);
+    let mut k = 0;
+    while k < 3 {
+        world().push_data(core::mem::take(&mut frags[perm[k]]));
+        k += 1;
+    }
+    let r = vu::receive(&addr, None, &Engine::Source(None), 17);
+    let sb = (score as u32).to_le_bytes();
+    let want = [1u8, 0, b'A', b'l', 0, sb[0], sb[1], sb[2], sb[3], 0, 0, 0x80, 0x3f];
+    match &r {
+        Ok((header, kind, payload)) => {
+            assert!(*header == 0xFFFF_FFFF && *kind == 0x44);
+            assert!(bytes_eq(payload, &want));
+        }
+        Err(_) => assert!(false),
+    }
+    core::mem::forget(r);
+}
+
+macro_rules! c08_receive {
+    ($name:ident, $perm:expr) => {
+        #[cfg(kani)]
+        #[kani::proof]
+        #[kani::unwind(15)]
+        #[kani::stub(alloc::fmt::format, stub_format)]
+        fn $name() { valve_receive_order($perm) }
+    };
+}
+c08_receive!(c08_valve_receive_210, [2, 1, 0]);
+c08_receive!(c08_valve_receive_120, [1, 2, 0]);
+c08_receive!(c08_valve_receive_201, [2, 0, 1]);
+c08_receive!(c08_t_valve_receive_102, [1, 0, 2]);
+c08_receive!(c08_t_valve_receive_021, [0, 2, 1]);
